@@ -202,27 +202,34 @@ func c11inCIDR(addr uint32, cidr string) bool {
 	return addr&mask == base
 }
 
-func Harness_C11_netpol() {
+func c11expose(tag string) manifest.ServiceExpose {
+	return manifest.ServiceExpose{Port: verif_U16(tag + "-port"), ExternalPort: verif_U16(tag + "-external-port"), Global: verif_Bool(tag + "-global"),
+		Proto: []manifest.ServiceProtocol{manifest.TCP, manifest.UDP}[verif_Choice(tag+"-proto", 2)]}
+}
+
+func c11netpol(nsvc int) {
 	lid := c11lid()
 	ns := lidNS(lid)
-	ext := verif_U16("external-port")
-	svc := manifest.Service{Name: "web", Image: "img", Count: 1,
-		Expose: []manifest.ServiceExpose{{Port: verif_U16("port"), ExternalPort: ext, Global: verif_Bool("global"),
-			Proto: []manifest.ServiceProtocol{manifest.TCP, manifest.UDP}[verif_Choice("proto", 2)]}}}
-	group := &manifest.Group{Name: "g", Services: []manifest.Service{svc}}
+	names := []string{"web", "api"}
+	var svcs []manifest.Service
+	for i := 0; i < nsvc; i++ {
+		svcs = append(svcs, manifest.Service{Name: names[i], Image: "img", Count: 1, Expose: []manifest.ServiceExpose{c11expose(names[i])}})
+	}
+	group := &manifest.Group{Name: "g", Services: svcs}
 	pols, err := newNetPolBuilder(Settings{NetworkPoliciesEnabled: true}, lid, group).create()
 	verif_Assert(err == nil && len(pols) >= 1, "C11 network policies are generated when enabled")
 	if err != nil {
 		return
 	}
-	ex := svc.Expose[0]
+	// the pod under attack belongs to service t
+	t := verif_Choice("target-service", nsvc)
+	ex := svcs[t].Expose[0]
 	extPort := int32(ex.ExternalPort)
 	if ex.ExternalPort == 0 {
 		extPort = int32(ex.Port)
 	}
 	exposedDirectly := verif_And(ex.Global, verif_Not(verif_And(ex.Proto == manifest.TCP, extPort == 80)))
 
-	// an arbitrary connection attempt INTO a pod of the service
 	peer := c11peer{sameNS: verif_Bool("peer-same-namespace"), nsIngress: verif_Bool("peer-namespace-is-ingress"), podIngress: verif_Bool("peer-pod-is-ingress")}
 	verif_Assume(verif_Not(verif_And(peer.sameNS, peer.nsIngress))) // the lease namespace is not the ingress controller's
 	dport, dudp := int32(verif_U16("dest-port")), verif_Bool("dest-udp")
@@ -234,12 +241,23 @@ func Harness_C11_netpol() {
 	isolatedIn, isolatedOut := false, false
 	for _, pol := range pols {
 		verif_Assert(pol.Namespace == ns, "C11 every network policy lives in the lease's namespace")
-		// both policies select the service's pods (empty selector or the service label)
-		for _, t := range pol.Spec.PolicyTypes {
-			if t == netv1.PolicyTypeIngress {
+		// does the policy select the target pod?
+		selects := true
+		for k, v := range pol.Spec.PodSelector.MatchLabels {
+			if k == akashManifestServiceLabelName {
+				selects = selects && v == names[t]
+			} else {
+				selects = false
+			}
+		}
+		if !selects {
+			continue
+		}
+		for _, pt := range pol.Spec.PolicyTypes {
+			if pt == netv1.PolicyTypeIngress {
 				isolatedIn = true
 			}
-			if t == netv1.PolicyTypeEgress {
+			if pt == netv1.PolicyTypeEgress {
 				isolatedOut = true
 			}
 		}
@@ -276,6 +294,9 @@ func Harness_C11_netpol() {
 		"C11 no egress to private address ranges outside the namespace except DNS")
 	verif_Reach("netpol")
 }
+
+func Harness_C11_netpol()   { c11netpol(1) }
+func Harness_C11_netpol_2() { c11netpol(2) }
 
 // network policies disabled: nothing generated (the statement is conditional on the flag)
 func Harness_C11_netpol_off() {
